@@ -415,7 +415,6 @@ impl Iterator for Lexer {
 
                 let end = self.get_pos();
                 self.consume_char(); // Skip final '"'
-                self.consume_char();
 
                 Some(Token::new(
                     TokenType::String(string_str.clone()),
